@@ -500,3 +500,68 @@ def gen_bms_doc(r: random.Random, hi: int = 6, layout: str | None = None, odd_te
 def gen_bms_fmt(r: random.Random, knobs: dict) -> dict:
     return dict(newline="lf" if knobs.get("stored_newline") == "lf" else "crlf", lead_comment=r.random() < 0.4,
                 blank_between=r.random() < 0.3)
+
+
+# ---------------------------------------------------------------- O2Jam (binary first, C07)
+
+OJN_SLOTS = [1, 2, 3, 4, 4, 6, 8, 8, 12, 16, 16, 24, 32, 48, 64, 96, 192, 5, 7]
+OJN_BPMS = [130.0, 120.0, 60.0, 200.0, 173.5, 87.25, 240.0, 90.0, 0.75, 300.0, 150.0]
+
+
+def gen_ojn_level(r: random.Random, n_meas: int, hi: int) -> list:
+    pkgs = []
+    # notes per column, long notes nest across packages and measures
+    for col in range(7):
+        if r.random() < 0.3:
+            continue
+        open_ = False
+        for m in range(n_meas):
+            if r.random() < 0.45 and not open_:
+                continue
+            n = r.choice(OJN_SLOTS)
+            ev = [0] * n
+            k = r.randint(1, max(1, min(n, 3)))
+            for i in sorted(r.sample(range(n), min(k, n))):
+                vol, pan = r.randrange(16), r.randrange(16)
+                if open_:
+                    ev[i] = [r.randint(1, 500), vol, pan, 3]
+                    open_ = False
+                elif r.random() < 0.3:
+                    ev[i] = [r.randint(1, 500), vol, pan, 2]
+                    open_ = True
+                else:
+                    ev[i] = [r.randint(1, 500), vol, pan, 0]
+            pkgs.append([m, col + 2, ev])
+        if open_:
+            pkgs.append([n_meas, col + 2, [[1, 0, 8, 3]] + [0] * r.choice([0, 1, 3])])
+    # tempo events anywhere, also after the last note
+    used = set()
+    for _ in range(r.choice([0, 0, 1, 2, 3, 6])):
+        m = r.randint(0, n_meas + 1)
+        n = r.choice([1, 1, 2, 4, 8, 16, 32, 3, 12])
+        i = r.randrange(n)
+        if (m, Fraction(i, n)) in used:
+            continue
+        used.add((m, Fraction(i, n)))
+        ev = [0.0] * n
+        ev[i] = r.choice(OJN_BPMS)
+        pkgs.append([m, 1, ev])
+    # auto-play channels (not notes)
+    for _ in range(r.choice([0, 1, 2])):
+        pkgs.append([r.randint(0, n_meas), r.randint(9, 22), [[r.randint(1, 500), 0, 0, r.choice([0, 4])], 0]])
+    pkgs.sort(key=lambda p: (p[0], p[1]))
+    return pkgs
+
+
+def gen_ojn_doc(r: random.Random, hi: int = 6) -> dict:
+    n_meas = r.randint(1, max(2, min(6, hi)))
+    levels = [gen_ojn_level(r, n_meas, hi) if r.random() < 0.9 else [] for _ in range(3)]
+    header = dict(song_id=r.choice([1, 1000, 31337]), genre=r.randrange(11), bpm=r.choice(OJN_BPMS[:8]),
+                  level=[r.randint(1, 40), r.randint(1, 60), r.randint(1, 99), 0], measure_count=[n_meas + 1] * 3,
+                  title=r.choice(ASCII_T), artist=r.choice(ASCII_T), creator=r.choice(["me", "Evening", "c c", ""]),
+                  ojm_file=r.choice(["o2ma100.ojm", "x.ojm"]), duration=[r.randint(30, 300) for _ in range(3)],
+                  old_genre=b"", bmp_size=r.choice([0, 8000]), old_song_id=r.choice([0, 12]))
+    return dict(header=header, levels=levels)
+
+
+ASCII_T = ["Song", "A B", "x", "Title 1", "Caravan", "Escapes!", "q-w_e", "Take"]
